@@ -5,18 +5,6 @@ and the completion chain fork ⇒ join ⇒ chunks ⇒ split (for C03
 `exactly_once_at_complete`). -/
 namespace Martian.Sched
 
-/-- events of a run without failures and without interruption -/
-def Ev.failureFree : Ev → Bool
-  | .jobend _ x => x == .complete
-  | .silentfail _ => false
-  | .W _ x => x != Sentinel.errors && x != Sentinel.assert
-  | .crash => false
-  | .restart => false
-  | .reset _ => false
-  | _ => true
-
-def FailureFree (h : List Ev) : Prop := ∀ e ∈ h, e.failureFree = true
-
 theorem apply_nch (s : State) (e : Ev) (n f : Nat) : (apply s e).nch n f =
     match e with
     | .mkchunks n' f' k => if (n', f') = (n, f) then k else s.nch n f
